@@ -94,10 +94,19 @@ static CaseResult run_case(Tape &t, const dif::CaseOpt &opt = dif::CaseOpt())
 	std::string steps;
 	auto honest_user = [&](int u) { for (int i = 0; i < nhon; i++) if (hs[i].up && hs[i].user == u) return true; return false; };
 	for (int k = 0; k < nsteps && !t.exhausted() && !sim::W.livelock && E.s->srv->state != sim::ST_EXITED; k++) {
+		if (opt.perturb) {
+			// history perturbation (C12): a harmless echo request from an uninvolved address precedes the step; its text differs between the
+			// two runs (same length), so whatever the server leaves lying around from it -- decoded name, scratch buffers -- differs too.
+			// How the NEXT datagram is interpreted must not depend on it.
+			static const char *TXT[2] = {"zaaaaaaaaaaaaaaaaaaaaaaaaaaaa", "zatsuvrliTSUVRLI0123456789abc"};
+			std::string pname = std::string(TXT[opt.variant & 1]) + "." + c.domain;
+			sim::Datagram pd; pd.src = opt.perturb_addr; pd.dst = scn::SRV4; pd.data = refproto::make_query((uint16_t)(33000 + k), pname, refproto::qtype_of(c.qtype), false);
+			sim::W.send(pd); sim::W.run_for(2500);
+		}
 		int src = nhon + (int)t.below((uint32_t)(nsac + nhost));
 		scn::ScriptClient &sc = E.S(src).sc;
 		std::string what;
-		switch (t.pick({4, 6, 6, 5, 3, 2, 2, 2, 3, 2})) {
+		switch (t.pick({4, 6, 6, 5, 3, 2, 2, 2, 3, 2, 3})) {
 		case 0: { sim::Datagram dg; dg.src = sc.addr; dg.dst = sc.server; dg.data = mal::raw_bytes(t, ms); sim::W.send(dg); what = fmt("raw bytes %zuB", dg.data.size()); break; }
 		case 1: { static const char CMD[] = "vVlLiIzZsSoOyYrRnNpP0123456789abcdefABCDEFgxX-_"; char cmd = t.chance(2, 3) ? CMD[t.below(sizeof CMD - 1)] : 0;
 			sim::Datagram dg; dg.src = sc.addr; dg.dst = sc.server; dg.data = mal::hostile_query(t, c.domain, cmd, ms); sim::W.send(dg); what = fmt("malformed DNS %zuB cmd=%c", dg.data.size(), cmd ? cmd : '-'); break; }
@@ -183,6 +192,19 @@ static CaseResult run_case(Tape &t, const dif::CaseOpt &opt = dif::CaseOpt())
 			}
 			h.t_last = sim::W.now;
 			what = fmt("queue churn for session user %d: %d packets in %d bursts with polls in between", h.user, total, rounds); ms.hit("queue-churn");
+			break;
+		}
+		case 10: {  // a bare command letter (optionally one more character) in front of the domain, sent from the address of a logged-in session,
+			// honest ones included: too short for every command, so it must be refused or ignored and change nothing
+			std::vector<int> up; for (size_t i = 0; i < hs.size(); i++) if (hs[i].up) up.push_back((int)i);
+			if (up.empty()) break;
+			HonestS &h = hs[up[t.below((uint32_t)up.size())]];
+			static const char CMD[] = "vlisoyrnpVLISOYRNP0123456789abcdefABCDEF";
+			std::string name(1, CMD[t.below(sizeof CMD - 1)]);
+			if (t.chance(1, 3)) name += "abcdefghijklmnopqrstuvwxyz012345"[t.below(32)];
+			name += "." + c.domain;
+			E.S(h.src).sc.send_name(name, -1, t.chance(1, 4) ? (int)refproto::qtype_of(1 + (int)t.below(7)) : -1);
+			what = fmt("bare command '%s' from the address of session user %d", name.substr(0, name.find('.')).c_str(), h.user); ms.hit("bare-command-from-session-address");
 			break;
 		}
 		default: {  // tunnel command letter followed by arbitrary bytes
